@@ -152,13 +152,13 @@ M("c06_one_minus_eta_dropped", LF, "            return (1 - eta) * sum(vec * boo
 M("c06_burnin_ge", LF, "            if (self.samples_since_reset > self.burn_in) & (", "            if (self.samples_since_reset >= self.burn_in) & (", ["C06", "C01"])
 M("c06_untracked_in_any", LF, "        if any(self._alarm_states[self.samples_since_reset].values()):", "        if any(self._alarm_states[self.samples_since_reset].values()) or (\"npv\" not in self.rates_tracked and self.samples_since_reset > self.burn_in + 20 and self._get_four_rates(self._confusion)[\"npv\"] < 0.3):", ["C06"])
 M("c06_recs_warning_overwritten", LF, "        if self.drift_state == \"warning\" and self._retraining_recs[0] is None:", "        if self.drift_state == \"warning\":", ["C06"])
-M("c06_reset_keeps_confusion", LF, "        self._confusion = np.array([[1, 1], [1, 1]])  # C at a given time point\n", "", ["C06", "C02"])
+M("c06_reset_keeps_confusion", LF, "        self._confusion = np.array([[1, 1], [1, 1]])  # C at a given time point\n", "", ["C06"])
 M("c06_cache_key_denominator_ignored", LF, "            if r_curr_denom in denom_dict:\n", "            if r_curr_denom in denom_dict or len(denom_dict) > 25:\n                r_curr_denom = r_curr_denom if r_curr_denom in denom_dict else max(denom_dict)\n", ["C06"])
 M("c06_binomial_p_rounded", LF, "            bools = np.random.binomial(n=1, p=est_rate, size=denom)", "            bools = np.random.binomial(n=1, p=round(est_rate, 1), size=denom)", ["C06"])
 M("c06_subsample_offset", LF, "                self.samples_since_reset % self.subsample == 0\n", "                self.samples_since_reset % self.subsample == (1 if self.subsample > 2 else 0)\n", ["C06", "C01"])
 M("c06_warning_uses_detect_bounds", LF, "                    new_r_stat < lb_warn\n                ) | (new_r_stat > ub_warn)", "                    new_r_stat < lb_warn\n                ) | (new_r_stat > ub_detect)", ["C06"])
 M("c06_pseudocount_zero_after_reset", LF, "        self._denominators = {0: {\"tpr_N\": 2, \"tnr_N\": 2, \"ppv_N\": 2, \"npv_N\": 2}}\n        self._r_stat = self._p_table.copy()\n        self._warning_states = {\n            0: {\"tpr\": False, \"tnr\": False, \"ppv\": False, \"npv\": False}\n        }\n        self._alarm_states",
-  "        self._denominators = {0: {\"tpr_N\": 2, \"tnr_N\": 2, \"ppv_N\": 2, \"npv_N\": 2}}\n        self._r_stat = {0: dict(self._r_stat[max(self._r_stat)])}\n        self._warning_states = {\n            0: {\"tpr\": False, \"tnr\": False, \"ppv\": False, \"npv\": False}\n        }\n        self._alarm_states", ["C06", "C02"])
+  "        self._denominators = {0: {\"tpr_N\": 2, \"tnr_N\": 2, \"ppv_N\": 2, \"npv_N\": 2}}\n        self._r_stat = {0: dict(self._r_stat[max(self._r_stat)])}\n        self._warning_states = {\n            0: {\"tpr\": False, \"tnr\": False, \"ppv\": False, \"npv\": False}\n        }\n        self._alarm_states", ["C06"])
 
 MD = "menelaus/concept_drift/md3.py"
 M("c19_warning_ge", MD, "        if warning_level > warning_threshold:", "        if warning_level >= warning_threshold:", ["C19"])
@@ -212,3 +212,12 @@ M("c01_eddm_guard_loosened", EDDM, "if self._n_errors < self.n_threshold:", "if 
 M("c01_stepd_guard_loosened", STEPD, "if self.samples_since_reset >= 2 * self.window_size:", "if self.samples_since_reset >= 2 * self.window_size - 1:", ["C01", "C05"])
 M("c01_hdm_detect_batch_3_at_2", HD, "            condition1 = bool(self.batches_since_reset >= 2 and self.detect_batch != 3)", "            condition1 = bool(self.batches_since_reset >= 2 and (self.detect_batch != 3 or len(self.epsilon) >= 1 and self.total_batches % 4 == 0 and False))\n            if self.detect_batch == 3 and self.batches_since_reset == 2 and current_epsilon > 0.3:\n                self._drift_state = \"drift\"\n                self.reference = X\n                self._lambda = self.total_batches", ["C01", "C07"])
 M("c01_kdq_batch_restart_missing", KD, "        BatchDetector.reset(self)\n        KdqTreeDetector.reset(self)", "        if self.total_batches != 1:\n            BatchDetector.reset(self)\n        KdqTreeDetector.reset(self)", ["C01"])
+M("c02_kdq_batch_keeps_old_tree", KD, "            # Note that set_reference resets the detector.\n            self.set_reference(self.ref_data)\n", "            BatchDetector.reset(self)\n", ["C02", "C09"])
+M("c02_hdm_total_epsilon_kept", HD, "        self.epsilon = []\n        self.total_epsilon = 0\n", "        self.epsilon = []\n", ["C02", "C07"])
+M("c02_ph_sum_not_reset", PH, "        self._min = 0\n        self._sum = 0\n        self._mean = 0\n\n        self._change_scores = []", "        self._min = 0\n        self._mean = 0\n\n        self._change_scores = []", ["C02", "C04"])
+M("c02_stepd_window_kept", STEPD, "        super().reset()\n        self._s, self._r = 0, 0\n        self._window = []\n", "        super().reset()\n        self._s, self._r = 0, 0\n        self._window = self._window[-1:]\n        self._s = sum(self._window)\n", ["C02", "C05"])
+M("c02_kdq_stream_keeps_test_size", KD, "        self._ref_data = np.array([])\n        self._test_data_size = 0\n", "        self._ref_data = np.array([])\n        self._test_data_size = getattr(self, \"_test_data_size\", 0) // 4\n", ["C02", "C09"])
+M("c02_nndvi_reference_union", ND, "            self.set_reference(test_batch)", "            self.set_reference(np.vstack([self.reference_batch[: len(self.reference_batch) // 8], test_batch]))", ["C02", "C10"])
+M("c02_eddm_index_not_reset", EDDM, "        self._n_errors = 0\n        self._index_error_curr = 0\n        self._index_error_last = 0\n        self._dist_mean = 0\n        self._dist_std = 0\n        self._max_numerator = 0\n        self._test_statistic = None\n        self._initialize_retraining_recs()\n\n    # XXX",
+  "        self._n_errors = 0\n        self._index_error_last = 0\n        self._dist_mean = 0\n        self._dist_std = 0\n        self._max_numerator = 0\n        self._test_statistic = None\n        self._initialize_retraining_recs()\n\n    # XXX", ["C02", "C05"])
+M("c02_cusum_sd_from_whole_stream", CU, "            self.sd_hat = np.std(self._stream[-self.burn_in :])", "            self.sd_hat = np.std(self._stream)", ["C02", "C04"])
